@@ -80,6 +80,25 @@ MU = "fieldcompare/mesh/meshio_utils.py"
 mut("to_meshio_alias_again", MU, "    reordered = connectivity.copy()\n", "    reordered = connectivity\n", "C19")
 
 
+# ---- harmless rewrites: the checks must stay QUIET on these --------------------------------------------------------
+H = []
+
+
+def harmless(name, file, old, new, checks):
+    H.append(dict(name="HARMLESS_" + name, file=file, old=old, new=new, checks=checks.split(), harmless=True))
+
+
+harmless("le_as_not_greater", NU, "return np.less_equal(abs_diff, thresholds)", "return np.logical_not(np.greater(abs_diff, thresholds))", "C01 C10")
+harmless("stable_argsort", NU, "    return np.argsort(input_array)\n", "    return np.argsort(input_array, kind=\"stable\")\n", "C02 C08")
+harmless("strip_via_nonzero", TR, "    return sub_array(unconnected_filter_map, 0, first_unconnected_after_sort)", "    import numpy as _np\n    return _np.nonzero(_np.logical_not(is_unconnected))[0]", "C08 C02")
+harmless("report_order", FD, "        comparisons.extend(self._missing_source_comparisons(query))\n        comparisons.extend(self._missing_reference_comparisons(query))",
+         "        comparisons.extend(self._missing_reference_comparisons(query))\n        comparisons.extend(self._missing_source_comparisons(query))", "C11 C04 C20")
+harmless("cell_hash_salted", TR, "hashes = make_array([hash(tuple(sorted(corners))) for corners in corners_array])", "hashes = make_array([hash((\"cell\",) + tuple(sorted(corners))) for corners in corners_array])", "C02 C03 C08")
+harmless("dir_sorted_discovery", "fieldcompare/_matching.py", "        result.extend(relpath(join(root, filename), folder) for filename in files)", "        result.extend(relpath(join(root, filename), folder) for filename in sorted(files, reverse=True))", "C12")
+harmless("exit_code_expression", CC, "    return int(not value)", "    return 0 if value else 1", "C04 C12")
+harmless("sequence_zip_enumerate", FC, "        for idx, (res_step, ref_step) in enumerate(zip(res_sequence, ref_sequence)):", "        for idx, res_step, ref_step in ((i, a, b) for i, (a, b) in enumerate(zip(res_sequence, ref_sequence))):", "C15")
+
+
 def sh(cmd, **kw):
     return subprocess.run(cmd, shell=True, capture_output=True, text=True, **kw)
 
@@ -88,9 +107,9 @@ def main():
     only = sys.argv[1] if len(sys.argv) > 1 else ""
     sh(f"git -C /repo worktree remove --force {WT}; git -C /repo worktree prune; git -C /repo worktree add --detach {WT} HEAD")
     results = []
-    out = Path("/verif/seeded/mutation_selftest.json")
+    out = Path("/verif/seeded/mutation_selftest.json" if only != "HARMLESS" else "/verif/seeded/harmless_rewrites.json")
     try:
-        for m in M:
+        for m in (M + H if only != "HARMLESS" else H):
             if only not in m["name"]:
                 continue
             sh(f"git -C {WT} checkout -q -- .")
@@ -112,7 +131,10 @@ def main():
                     r = sh(f"cd /verif && VERIF_REPO={WT} VERIF_EVIDENCE_DIR=/verif/work/mut_evidence ./check {c} quick 2>&1 | grep -c '^VIOLATION'")
                     caught[c] = int(r.stdout.strip() or 0)
                 rec["violations_per_check"] = caught
-                rec["result"] = "CAUGHT" if any(v > 0 for v in caught.values()) else "MISSED"
+                if m.get("harmless"):
+                    rec["result"] = "QUIET (as required)" if not any(v > 0 for v in caught.values()) else "FALSE ALARM"
+                else:
+                    rec["result"] = "CAUGHT" if any(v > 0 for v in caught.values()) else "MISSED"
             results.append(rec)
             print(rec["name"], rec["result"], rec.get("violations_per_check", ""), flush=True)
             out.write_text(json.dumps(results, indent=1))
